@@ -41,6 +41,7 @@ func createSegment(name string, opt Options) (err error) {
 	if err != nil {
 		return
 	}
+	verifPoint("create.created", nil)
 	defer func() {
 		if e := f.Close(); err == nil {
 			err = e
@@ -55,10 +56,13 @@ func createSegment(name string, opt Options) (err error) {
 	if err = f.Truncate(size); err != nil {
 		return
 	}
+	verifPoint("create.truncated", nil)
 	if _, err = f.WriteAt(make([]byte, 16), size-16); err != nil {
 		return
 	}
+	verifPoint("create.written", nil)
 	err = f.Sync()
+	verifPoint("create.synced", nil)
 	return
 }
 
